@@ -875,7 +875,9 @@ def formula_grammar(table):
 
     mixture << (compound | grouped_mixture)
     formula = (compound | ungrouped_mixture | grouped_mixture)
-    grammar = Optional(formula, default=Formula()) + StringEnd()
+    # Note: the default must not be a Formula object, since it would be shared
+    # by every empty string parsed with this (cached) grammar.
+    grammar = Optional(formula, default=None) + StringEnd()
 
     grammar.setName('Chemical Formula')
     return grammar
@@ -889,7 +891,8 @@ def parse_formula(formula_str, table=None):
     table = default_table(table)
     if table not in _PARSER_CACHE:
         _PARSER_CACHE[table] = formula_grammar(table)
-    return _PARSER_CACHE[table].parseString(formula_str)[0]
+    result = _PARSER_CACHE[table].parseString(formula_str)[0]
+    return result if result is not None else Formula()
 
 def _count_atoms(seq):
     """
